@@ -588,6 +588,36 @@ fn option_pairs(rep: &mut Reporter, mixed: &[u8], clean: &[u8], stave_faulty: &[
         let st = std::fs::read_to_string(&statp).ok().and_then(|t| serde_json::from_str::<Value>(&t).ok());
         (r, st)
     };
+    // a filter that selects the only link of the stream, stdin instead of a file, and -v 0 change nothing that is found
+    for (ii, input) in inputs.iter().enumerate() {
+        let ms: Vec<Vec<String>> = if ii == 2 { vec![s(&["check", "all", "its-stave"])] } else { modes.to_vec() };
+        for mode in &ms {
+            let (base, _) = run(input, mode, &[]);
+            let base_msgs = first_lines(&split_cli_errors(&base.stderr_str()).into_iter().filter(|m| m.contains("[E")).collect::<Vec<_>>());
+            let (fr, _) = run(input, mode, &s(&["-f", &link]));
+            let f_msgs = first_lines(&split_cli_errors(&fr.stderr_str()).into_iter().filter(|m| m.contains("[E")).collect::<Vec<_>>());
+            if f_msgs != base_msgs {
+                rep.violation(Violation {
+                    signature: "option-pairs:filter-on-the-only-link-changes-findings".into(),
+                    description: format!("`{}`: {} messages without a filter, {} with --filter-link {link} on a stream that has only that link", mode.join(" "), base_msgs.len(), f_msgs.len()),
+                    replay: json!({"mode": mode, "input": ii}),
+                });
+            }
+            // the same input on stdin
+            let scratch = Scratch::new("c16s");
+            let mut a: Vec<String> = mode.clone();
+            a.extend(s(&["-E", "7"]));
+            let sr = Run::new(&a).cwd(&scratch.path).stdin(input).run();
+            let s_msgs = first_lines(&split_cli_errors(&sr.stderr_str()).into_iter().filter(|m| m.contains("[E")).collect::<Vec<_>>());
+            if s_msgs != base_msgs || sr.status != Some(if base_msgs.is_empty() { 0 } else { 7 }) {
+                rep.violation(Violation {
+                    signature: "option-pairs:stdin-changes-findings".into(),
+                    description: format!("`{}`: {} messages from a file, {} from stdin (exit {:?})", mode.join(" "), base_msgs.len(), s_msgs.len(), sr.status),
+                    replay: json!({"mode": mode, "input": ii}),
+                });
+            }
+        }
+    }
     let res = par_map(&cases, |_, c| {
         let sem: Vec<String> = c.set.iter().filter(|i| atoms[**i].semantic).flat_map(|i| atoms[*i].args.clone()).collect();
         let all: Vec<String> = c.set.iter().flat_map(|i| atoms[*i].args.clone()).collect();
